@@ -607,11 +607,10 @@ Definition create_summary (src v : Z) (gb : list Z) (name : Z) (gbkinds fkinds :
       end).
 
 (* update_summary_section for one section: the target table (0: created, else an existing summary table which
-   may get further formula columns), the fields deleted, the fields moved to columns of the target, the new
-   group-by fields *)
+   may get further formula columns), the fields moved to columns of the target (every other field of the
+   section is deleted), the new group-by fields *)
 Record regroup := mkRG { rg_sec : Z; rg_target : Z; rg_name : Z; rg_src : Z; rg_gb : list Z; rg_gbkinds : list Z;
-                         rg_fkinds : list Z; rg_added : list Z; rg_dels : list Z; rg_remap : list (Z * Z);
-                         rg_new : list Z }.
+                         rg_fkinds : list Z; rg_added : list Z; rg_remap : list (Z * Z); rg_new : list Z }.
 
 (* the target table: created, or an existing one that may get further formula columns *)
 Definition regroup_target (r : regroup) (m : meta) : res (meta * Z) :=
